@@ -3,7 +3,7 @@ from vmon import env, hooks, scopes, tablegen
 from vmon.hooks import MON
 from vmon.hostile import hostile_smiles
 from vmon.molgen import random_tree_mol, spell
-from vmon.aromgen import standard_system
+from vmon.aromgen import standard_system, union, link_systems
 from vmon.totality import Totality, AbortWorkload
 from vmon.props.c08 import atheris_campaign
 
@@ -51,6 +51,14 @@ def run(ctx):
             if i % 12 == 10:
                 m = random_tree_mol(rng, rng.choice([3, 8, 20]), p_ring=0.2, ncomp=rng.choice([1, 2]))
                 cls, x = "valid", spell(m, rng)[0]
+            elif i % 12 == 11 and i % 120 == 11:
+                # several hundred aromatic atoms in one call, odd-ring systems among many six-rings, connected or not
+                parts = [standard_system(rng, nrings=rng.choice([1, 1, 2]), sizes=(6,), chords=0) for _ in range(rng.randint(30, 70))]
+                for _ in range(rng.choice([1, 2, 3])):
+                    parts.insert(rng.choice([0, len(parts), rng.randrange(len(parts) + 1)]),
+                                 standard_system(rng, nrings=rng.choice([3, 4, 6]), sizes=rng.choice([(5, 6, 6, 7), (5, 6, 6), (5, 7), (3, 4, 5, 6, 7)]), chords=0))
+                m, kind_of, ae = union(parts) if rng.random() < 0.5 else link_systems(rng, parts)
+                cls, x = "aromatic-large", spell(m, rng)[0]
             elif i % 12 == 11:
                 m, kind_of, ae = standard_system(rng, sizes=(3, 4, 5, 6, 7))
                 cls, x = "aromatic", spell(m, rng)[0]
